@@ -1,0 +1,8 @@
+//go:build verif
+
+package sharedport
+
+import "io"
+
+// Verification hook for property C13: exposes the shared-port header reader.
+func VerifC13ReadPassSockHeader(r io.Reader) error { return readPassSockHeader(r) }
